@@ -137,6 +137,13 @@ def gen_case(seed):
         sc["script"] = [{"t": r5.choice([0.3, 0.65, 1.0, 2.5, 6.0]), "side": "server", "op": "close", "early": True, "code": r5.choice([0, 7, 0x10E]),
                          "frame_type": None if app else 6, "reason": r5.choice(["", "bye"])}]
         sc["lateness"] = 0.0
+        if r5.random() < 0.5:
+            # ... or does not close at all but has 0.5-RTT application data in flight (an ack-eliciting packet that a
+            # probe timeout does not declare lost) while it sits at the limit for a whole idle period: every deadline it
+            # asks for must still lie in the future, or be acted upon, until the idle timeout ends the connection
+            mode = "amplification-blocked-until-idle"
+            sc["script"] = [{"t": 0.001, "side": "server", "op": "write", "sid": 3, "n": r5.choice([300, 1500]), "fin": False, "early": True}]
+            sc["opts"]["idle_client"] = sc["opts"]["idle_server"] = 60.0
     sc["script"].sort(key=lambda o: o["t"])
     sc["horizon"] = 400.0
     sc["mode"] = mode
